@@ -11,6 +11,11 @@ still point at the right lines.
   C2  negated branches     `if not c: A else: B` -> `if c: B else: A` (whenever there is an else branch; `elif` is an else
                            branch holding one `if`);  `A if not c else B` -> `B if c else A`
   C3  double negation      `not not c` in a test position -> `c`
+  C4  guard clauses        `if c: ...jump else: REST` -> `if c: ...jump` followed by REST (jump = return / raise / continue /
+                           break as the last statement); when only the else branch jumps the test is negated first
+  C5  single-use temps     `t = E` immediately followed by a statement that reads t once, before anything with a possible effect is
+                           evaluated in it -> E written in place (t bound once, read once).  Attribute reads and subscripts of
+                           plain names are taken to be effect-free and independent of E - the one assumption made here.
 """
 from __future__ import annotations
 
@@ -27,6 +32,7 @@ class _Canon:
     def __init__(self):
         self.n_copy = 0
         self.n_neg = 0
+        self.n_guard = 0
 
     # ------------------------------------------------------------------ C1
     def _copy_temps(self, fn):
@@ -135,11 +141,172 @@ class _Canon:
                 n.body, n.orelse = n.orelse, n.body
                 self.n_neg += 1
 
+    # ------------------------------------------------------------------ C4
+    @staticmethod
+    def _jumps(body) -> bool:
+        return bool(body) and isinstance(body[-1], (ast.Return, ast.Raise, ast.Continue, ast.Break))
+
+    def _guard_clauses(self, tree):
+        """`if c: ...jump  else: REST`  ->  `if c: ...jump` ; REST     (and `if c: A else: ...jump` -> `if not c: ...jump` ; A)"""
+        for n in ast.walk(tree):
+            for field in ("body", "orelse", "finalbody"):
+                blk = getattr(n, field, None)
+                if isinstance(blk, list) and blk and isinstance(blk[0], ast.stmt):
+                    # the last member of an if / elif / else chain keeps its shape when only its else branch jumps
+                    # (`... elif b: Y else: raise` is the usual dispatch-with-error idiom, not a guard clause)
+                    is_elif = isinstance(n, ast.If) and field == "orelse" and len(blk) == 1 and isinstance(blk[0], ast.If)
+                    self._flatten(blk, is_elif)
+            if isinstance(n, ast.Try):
+                for h in n.handlers:
+                    self._flatten(h.body, False)
+
+    def _flatten(self, blk, is_elif):
+        i = 0
+        while i < len(blk):
+            s = blk[i]
+            if isinstance(s, ast.If) and s.orelse:
+                bj, ej = self._jumps(s.body), self._jumps(s.orelse)
+                chain_head = len(s.orelse) == 1 and isinstance(s.orelse[0], ast.If)
+                if not bj and ej and not is_elif and not chain_head:
+                    t = s.test
+                    s.test = t.operand if isinstance(t, ast.UnaryOp) and isinstance(t.op, ast.Not) else ast.copy_location(ast.UnaryOp(op=ast.Not(), operand=t), t)
+                    s.body, s.orelse = s.orelse, s.body
+                    bj = True
+                if bj:
+                    rest = s.orelse
+                    s.orelse = []
+                    blk[i + 1:i + 1] = rest
+                    self.n_guard += 1
+            i += 1
+
+    # ------------------------------------------------------------------ C5
+    def _single_use_temps(self, fn):
+        """`t = E` immediately followed by a statement whose value reads t exactly once, before anything that could have an effect is
+        evaluated in that statement (names, constants, attribute reads and subscripts of those are taken to be effect-free), t bound once
+        and read once in the function  ->  E is written in place of t."""
+        changed = True
+        while changed:
+            changed = False
+            stores: Dict[str, int] = {}
+            loads: Dict[str, int] = {}
+            special = set()
+            for n in _fn_nodes(fn):
+                if isinstance(n, ast.Name):
+                    if isinstance(n.ctx, ast.Load):
+                        loads[n.id] = loads.get(n.id, 0) + 1
+                    else:
+                        stores[n.id] = stores.get(n.id, 0) + 1
+                elif isinstance(n, (ast.Global, ast.Nonlocal)):
+                    special |= set(n.names)
+                elif isinstance(n, ast.arg):
+                    special.add(n.arg)
+            for blk in self._own_blocks(fn):
+                i = 0
+                while i + 1 < len(blk):
+                    a, b = blk[i], blk[i + 1]
+                    if isinstance(a, ast.Assign) and len(a.targets) == 1 and isinstance(a.targets[0], ast.Name) \
+                            and isinstance(b, (ast.Assign, ast.Expr, ast.Return, ast.AugAssign, ast.AnnAssign)) and getattr(b, "value", None) is not None:
+                        t = a.targets[0].id
+                        if stores.get(t) == 1 and loads.get(t) == 1 and t not in special \
+                                and not isinstance(a.value, (ast.Yield, ast.YieldFrom, ast.Await, ast.Lambda, ast.ListComp, ast.GeneratorExp, ast.DictComp, ast.SetComp)):
+                            # the targets of b must not mention t, and an augmented target is read before the value is computed
+                            tg = b.targets if isinstance(b, ast.Assign) else [b.target] if isinstance(b, (ast.AugAssign, ast.AnnAssign)) else []
+                            if any(isinstance(x, ast.Name) and x.id == t for g in tg for x in ast.walk(g)):
+                                i += 1
+                                continue
+                            if isinstance(b, ast.AugAssign) and not isinstance(b.target, ast.Name):
+                                i += 1
+                                continue
+                            if self._reached_first(b.value, t) == "found":
+                                b.value = self._subst(b.value, t, a.value)
+                                del blk[i]
+                                self.n_copy += 1
+                                changed = True
+                                stores[t] = 0
+                                loads[t] = 0
+                                continue
+                    i += 1
+
+    @staticmethod
+    def _subst(e, t, val):
+        if isinstance(e, ast.Name) and e.id == t:
+            return val
+
+        class S(ast.NodeTransformer):
+            def visit_Name(self, n):
+                return val if n.id == t and isinstance(n.ctx, ast.Load) else n
+        return S().visit(e)
+
+    def _reached_first(self, e, t) -> str:
+        """'found' if the read of t is reached, in evaluation order, before any call / operator on non-trivial operands has run;
+        'pure' if e is effect-free and does not mention t; 'stop' otherwise"""
+        if isinstance(e, ast.Name):
+            return "found" if e.id == t else "pure"
+        if isinstance(e, ast.Constant):
+            return "pure"
+        if isinstance(e, ast.Attribute):
+            return self._reached_first(e.value, t)
+        if isinstance(e, ast.Starred):
+            return self._reached_first(e.value, t)
+        if isinstance(e, ast.Subscript):
+            r = self._reached_first(e.value, t)
+            return r if r != "pure" else self._reached_first(e.slice, t)
+        if isinstance(e, ast.Slice):
+            for x in (e.lower, e.upper, e.step):
+                if x is not None:
+                    r = self._reached_first(x, t)
+                    if r != "pure":
+                        return r
+            return "pure"
+        if isinstance(e, (ast.Tuple, ast.List, ast.Set)):
+            for x in e.elts:
+                r = self._reached_first(x, t)
+                if r != "pure":
+                    return r
+            return "pure"
+        if isinstance(e, ast.UnaryOp):
+            r = self._reached_first(e.operand, t)
+            return r if r == "found" else "stop"
+        if isinstance(e, ast.BinOp):
+            r = self._reached_first(e.left, t)
+            if r != "pure":
+                return r
+            r = self._reached_first(e.right, t)
+            return r if r == "found" else "stop"
+        if isinstance(e, ast.Compare) and len(e.comparators) == 1:
+            r = self._reached_first(e.left, t)
+            if r != "pure":
+                return r
+            r = self._reached_first(e.comparators[0], t)
+            return r if r == "found" else "stop"
+        if isinstance(e, ast.Call):
+            r = self._reached_first(e.func, t)
+            if r != "pure":
+                return r
+            for a in e.args:
+                r = self._reached_first(a, t)
+                if r != "pure":
+                    return r
+            for k in e.keywords:
+                r = self._reached_first(k.value, t)
+                if r != "pure":
+                    return r
+            return "stop"
+        if isinstance(e, ast.BoolOp):
+            r = self._reached_first(e.values[0], t)
+            return r if r == "found" else "stop"
+        if isinstance(e, ast.IfExp):
+            r = self._reached_first(e.test, t)
+            return r if r == "found" else "stop"
+        return "stop"
+
     def run(self, tree: ast.Module) -> ast.Module:
         self._negated(tree)
+        self._guard_clauses(tree)
         for n in ast.walk(tree):
             if isinstance(n, (ast.FunctionDef, ast.AsyncFunctionDef)):
                 self._copy_temps(n)
+                self._single_use_temps(n)
         return tree
 
 
